@@ -98,8 +98,10 @@ fn new_uid() -> u64 {
     uid
 }
 
-fn on_drop(uid: u64) {
+/// Records the drop; returns false if this uid had already been dropped (a double drop).
+fn on_drop(uid: u64) -> bool {
     // never panics
+    let mut first = true;
     let _ = LEDGER.try_with(|l| {
         let mut l = match l.try_borrow_mut() { Ok(l) => l, Err(_) => return };
         l.dropped_total += 1;
@@ -112,9 +114,18 @@ fn on_drop(uid: u64) {
         let idx = (uid - l.base) as usize;
         match l.state[idx] {
             1 => { l.state[idx] = 2; l.live -= 1; }
-            n => { l.state[idx] = n.saturating_add(1); let m = format!("double drop of uid {} (drop #{})", uid, n); l.errors.push(m); }
+            n => { l.state[idx] = n.saturating_add(1); let m = format!("double drop of uid {} (drop #{})", uid, n); l.errors.push(m); first = false; }
         }
     });
+    first
+}
+
+/// Natively a detected double drop must not also become a glibc abort (the ledger has the
+/// witness and the shard goes on); under Miri and the sanitizers the real double free is
+/// performed so that the tool sees it as well.
+#[inline]
+fn release(live: &mut std::mem::ManuallyDrop<Box<u64>>, first: bool) {
+    if first || cfg!(miri) || cfg!(feature = "noarena") { unsafe { std::mem::ManuallyDrop::drop(live) } }
 }
 
 pub fn ledger_strict(on: bool) { LEDGER.with(|l| l.borrow_mut().strict = on); }
@@ -148,19 +159,19 @@ pub struct TKey {
     pub id: u32,
     pub uid: u64,
     pub heap: usize,
-    live: Box<u64>,
+    live: std::mem::ManuallyDrop<Box<u64>>,
 }
 
 impl TKey {
     pub fn new(id: u32, heap: usize) -> TKey {
         let uid = new_uid();
-        TKey { id, uid, heap, live: Box::new(uid) }
+        TKey { id, uid, heap, live: std::mem::ManuallyDrop::new(Box::new(uid)) }
     }
     /// reads through the owned allocation (a real memory access for the sanitizers)
-    pub fn check_live(&self) -> bool { *self.live == self.uid }
+    pub fn check_live(&self) -> bool { **self.live == self.uid }
 }
 
-impl Drop for TKey { fn drop(&mut self) { on_drop(self.uid) } }
+impl Drop for TKey { fn drop(&mut self) { let first = on_drop(self.uid); release(&mut self.live, first); } }
 
 impl Clone for TKey {
     fn clone(&self) -> TKey { tick(C_CLONE); TKey::new(self.id, self.heap) }
@@ -207,18 +218,18 @@ pub struct TVal {
     pub uid: u64,
     pub heap: usize,
     pub stamp: u64,
-    live: Box<u64>,
+    live: std::mem::ManuallyDrop<Box<u64>>,
 }
 
 impl TVal {
     pub fn new(heap: usize) -> TVal {
         let uid = new_uid();
-        TVal { uid, heap, stamp: 0, live: Box::new(uid) }
+        TVal { uid, heap, stamp: 0, live: std::mem::ManuallyDrop::new(Box::new(uid)) }
     }
-    pub fn check_live(&self) -> bool { *self.live == self.uid }
+    pub fn check_live(&self) -> bool { **self.live == self.uid }
 }
 
-impl Drop for TVal { fn drop(&mut self) { on_drop(self.uid) } }
+impl Drop for TVal { fn drop(&mut self) { let first = on_drop(self.uid); release(&mut self.live, first); } }
 
 impl Clone for TVal {
     fn clone(&self) -> TVal { tick(C_CLONE); let mut v = TVal::new(self.heap); v.stamp = self.stamp; v }
